@@ -237,11 +237,11 @@ func getTypeInfo(t reflect.Type) (*typeInfo, error) {
 		if err := info.normalize(); err != nil {
 			return nil, err
 		}
-		f, _ = typeCache.LoadOrStore(t, info)
+		f, _ = typeCache.LoadOrStore(typ, info)
 	}
-	ti := &(*f.(*typeInfo))
+	ti := *f.(*typeInfo)
 	ti.Struct = t
-	return ti, nil
+	return &ti, nil
 }
 
 func indirectType(typ reflect.Type) reflect.Type {
